@@ -7,12 +7,14 @@ import (
 	"fmt"
 	"io"
 	"os"
+	"runtime"
 	"sort"
 	"strconv"
 	"strings"
 	"sync"
 	"sync/atomic"
 	"testing"
+	"time"
 
 	"github.com/uber-go/tally"
 
@@ -32,34 +34,93 @@ import (
 //   spawn <w> <pi> <payload>    register a writer goroutine (not started)
 //   run <w> <k>                 let writer w run to its next gate (or to the end); k = bytes its next Read returns
 //   obs / read <pi> / has <pi> / plen <pi> / metainfo / reopen
-// Gates (where a writer goroutine is parked; they are the program points of the Lean model):
+//   burst <w,w,…> <k>           release all listed writers at the same instant, wait until each is parked again or done
+// Gates (where a writer goroutine is parked; they are the program points of the Lean model). The cfg
+// token gates=<list> selects which ones are active in a case (default g1,g2,g3,g4):
+//   fc piece.complete()   fd piece.dirty()   td piece.tryMarkDirty()   (agentstorage.VerifPoint hook)
 //   g1 GetDownloadFileReadWriter (after tryMarkDirty)   g2 every Read of the payload (before each file write)
-//   g3 Download() of markPieceComplete (after the checksum matched)   g4 MoveDownloadFileToCache
+//   g3 Download() of markPieceComplete (after the checksum matched)
+//   mc piece.markComplete()   in numComplete.Inc()   ld numComplete.Load()          (hook)
+//   g4 MoveDownloadFileToCache   sc committed.Store(true)   me piece.markEmpty()    (hook)
 // machine "atc": free-running concurrent writers (history + final state, monitors only).
 
 // ---------------------------------------------------------------- gating
+
+type c03Release struct {
+	k       int
+	barrier *int32 // spin barrier of a burst: the released writers are all running when it opens
+}
+
+func c03Spin(b *int32) {
+	for i := 0; atomic.LoadInt32(b) == 0; i++ {
+		if i%100000 == 99999 {
+			runtime.Gosched()
+		}
+	}
+}
 
 type c03Worker struct {
 	name    string
 	pi      int
 	payload []byte
 	arrive  chan string
-	release chan int
+	release chan c03Release
 	started bool
 	done    bool
 }
 
+// c03Ctl parks writer goroutines at the active gates. A goroutine is recognised by its id, so that
+// several writers can run at the same time (burst); any other goroutine passes every gate.
 type c03Ctl struct {
-	cur *c03Worker // the worker that is allowed to run (nil: gates are transparent)
+	mu      sync.Mutex
+	byGoid  map[int64]*c03Worker
+	enabled map[string]bool
+}
+
+func c03Goid() int64 {
+	var buf [64]byte
+	n := runtime.Stack(buf[:], false)
+	f := strings.Fields(string(buf[:n]))
+	if len(f) < 2 {
+		return -1
+	}
+	id, _ := strconv.ParseInt(f[1], 10, 64)
+	return id
+}
+
+var c03Current *c03Ctl // the controller of the case being executed (cases run one at a time)
+
+var c03HookNames = map[string]string{
+	"complete": "fc", "dirty": "fd", "try_mark_dirty": "td", "mark_complete": "mc",
+	"inc_num_complete": "in", "load_num_complete": "ld", "set_committed": "sc", "mark_empty": "me",
+}
+
+func init() {
+	agentstorage.VerifPoint = func(point string) {
+		if c := c03Current; c != nil {
+			if g, ok := c03HookNames[point]; ok {
+				c.gate(g)
+			}
+		}
+	}
 }
 
 func (c *c03Ctl) gate(name string) int {
-	w := c.cur
+	if !c.enabled[name] {
+		return 1 << 30
+	}
+	c.mu.Lock()
+	w := c.byGoid[c03Goid()]
+	c.mu.Unlock()
 	if w == nil {
 		return 1 << 30
 	}
 	w.arrive <- name
-	return <-w.release
+	r := <-w.release
+	if r.barrier != nil {
+		c03Spin(r.barrier)
+	}
+	return r.k
 }
 
 // c03Cads wraps the real store; it only parks the calling writer at the gates.
@@ -172,7 +233,15 @@ func c03NewEnv(cfg []string) (*c03Env, error) {
 		return nil, err
 	}
 	e := &c03Env{dir: dir, cads: cads, blob: blob, gated: kv["mode"] == "gated", workers: map[string]*c03Worker{}}
-	e.ctl = &c03Ctl{}
+	e.ctl = &c03Ctl{byGoid: map[int64]*c03Worker{}, enabled: map[string]bool{}}
+	gates := kv["gates"]
+	if gates == "" {
+		gates = "g1,g2,g3,g4"
+	}
+	for _, g := range strings.Split(gates, ",") {
+		e.ctl.enabled[g] = true
+	}
+	c03Current = e.ctl
 	e.gcads = &c03Cads{CADownloadStore: cads, ctl: e.ctl}
 	d, err := core.NewDigester().FromBytes(blob)
 	if err != nil {
@@ -208,6 +277,7 @@ func c03NewEnv(cfg []string) (*c03Env, error) {
 }
 
 func (e *c03Env) close() {
+	c03Current = nil
 	e.cads.Close()
 	os.RemoveAll(e.dir)
 }
@@ -222,13 +292,18 @@ func (e *c03Env) live() []string {
 	return out
 }
 
-// run lets worker w proceed to its next gate; returns the observation tokens.
-func (e *c03Env) run(w *c03Worker, k int) []string {
-	e.ctl.cur = w
+// kick starts or releases worker w (it then runs until its next active gate or its end).
+func (e *c03Env) kick(w *c03Worker, k int, barrier *int32) {
 	if !w.started {
 		w.started = true
 		t := e.t
 		go func() {
+			e.ctl.mu.Lock()
+			e.ctl.byGoid[c03Goid()] = w
+			e.ctl.mu.Unlock()
+			if barrier != nil {
+				c03Spin(barrier)
+			}
 			res := "panic"
 			func() {
 				defer func() { recover() }()
@@ -237,15 +312,38 @@ func (e *c03Env) run(w *c03Worker, k int) []string {
 			w.arrive <- "done " + res
 		}()
 	} else {
-		w.release <- k
+		w.release <- c03Release{k, barrier}
 	}
+}
+
+func (e *c03Env) await(w *c03Worker) string {
 	ev := <-w.arrive
-	e.ctl.cur = nil
 	if strings.HasPrefix(ev, "done ") {
 		w.done = true
-		return []string{"done", ev[5:]}
+		return "done." + ev[5:]
 	}
-	return []string{"at", ev}
+	return "at." + ev
+}
+
+// run lets worker w proceed to its next gate; returns the observation tokens.
+func (e *c03Env) run(w *c03Worker, k int) []string {
+	e.kick(w, k, nil)
+	return strings.SplitN(e.await(w), ".", 2)
+}
+
+// burst releases several workers at the same instant and waits for all of them.
+func (e *c03Env) burst(ws []*c03Worker, k int) []string {
+	barrier := new(int32)
+	for _, w := range ws {
+		e.kick(w, k, barrier)
+	}
+	time.Sleep(200 * time.Microsecond) // let every released writer reach the spin loop
+	atomic.StoreInt32(barrier, 1)
+	var out []string
+	for _, w := range ws {
+		out = append(out, w.name+"="+e.await(w))
+	}
+	return out
 }
 
 func (e *c03Env) readFile(cacheOnly bool) string {
@@ -349,7 +447,7 @@ func c03Exec(tr *verifh.T, c verifh.Case, hold bool) (recs [][2][]string, live [
 			if !ok || err != nil || !e.gated || e.workers[a[1]] != nil {
 				return
 			}
-			e.workers[a[1]] = &c03Worker{name: a[1], pi: pi, payload: p, arrive: make(chan string), release: make(chan int)}
+			e.workers[a[1]] = &c03Worker{name: a[1], pi: pi, payload: p, arrive: make(chan string), release: make(chan c03Release)}
 			e.order = append(e.order, a[1])
 			r.op(a, "ok")
 		case a[0] == "run" && len(a) == 3:
@@ -359,6 +457,24 @@ func c03Exec(tr *verifh.T, c verifh.Case, hold bool) (recs [][2][]string, live [
 				return
 			}
 			r.op(a, e.run(w, k)...)
+		case a[0] == "burst" && len(a) == 3:
+			k, ok := atoi(a[2])
+			var ws []*c03Worker
+			seen := map[string]bool{}
+			for _, n := range verifh.Unlist(a[1]) {
+				if w := e.workers[n]; w != nil && !w.done && !seen[n] {
+					ws = append(ws, w)
+					seen[n] = true
+				}
+			}
+			if !ok || k < 0 || len(ws) == 0 {
+				return
+			}
+			var names []string
+			for _, w := range ws {
+				names = append(names, w.name)
+			}
+			r.op([]string{"burst", verifh.List(names), a[2]}, e.burst(ws, k)...)
 		case a[0] == "obs" && len(a) == 1:
 			r.op(a, e.obs()...)
 		case a[0] == "read" && len(a) == 2:
@@ -397,6 +513,25 @@ func c03Exec(tr *verifh.T, c verifh.Case, hold bool) (recs [][2][]string, live [
 			out := "panic"
 			verifh.Protect(func() { out = verifh.Bool(e.t.HasPiece(pi)) })
 			r.op(a, out)
+		case a[0] == "recreate" && len(a) == 1:
+			// TorrentArchive.DeleteTorrent, then CreateTorrent again: file, sidecars and statuses start over
+			if len(e.live()) > 0 {
+				return
+			}
+			if err := e.archive.DeleteTorrent(e.mi.Digest()); err != nil {
+				r.op(a, "err", verifh.Str(err.Error()))
+				return
+			}
+			t, err := e.archive.CreateTorrent("ns", e.mi.Digest())
+			if err == nil && e.gated {
+				t, err = agentstorage.NewTorrent(e.gcads, e.mi)
+			}
+			if err != nil {
+				r.op(a, "err", verifh.Str(err.Error()))
+				return
+			}
+			e.t = t
+			r.op(a, "ok")
 		case a[0] == "reopen" && len(a) == 1:
 			if len(e.live()) > 0 {
 				return
@@ -449,12 +584,23 @@ func c03Exec(tr *verifh.T, c verifh.Case, hold bool) (recs [][2][]string, live [
 
 // ---------------------------------------------------------------- generators
 
+const (
+	c03Coarse = "g1,g2,g3,g4"
+	c03Fine   = "fc,fd,td,g1,g2,g3,mc,in,ld,g4,sc,me"
+	c03Commit = "mc,in,ld,g4"
+	c03Front  = "fd,td,g1"
+)
+
 func c03Cfg(blob []byte, pl int, gated bool, wps int) []string {
+	return c03CfgG(blob, pl, gated, wps, c03Coarse)
+}
+
+func c03CfgG(blob []byte, pl int, gated bool, wps int, gates string) []string {
 	mode := "seq"
 	if gated {
 		mode = "gated"
 	}
-	return []string{fmt.Sprintf("pl=%d", pl), "blob=" + verifh.Hex(blob), "mode=" + mode, fmt.Sprintf("wps=%d", wps)}
+	return []string{fmt.Sprintf("pl=%d", pl), "blob=" + verifh.Hex(blob), "mode=" + mode, fmt.Sprintf("wps=%d", wps), "gates=" + gates}
 }
 
 func c03Blob(n int) []byte {
@@ -539,6 +685,9 @@ func c03SeqAlphabet(blob []byte, pl int) [][]string {
 		ops = append(ops, c03Write(i, p))
 	}
 	ops = append(ops, []string{"op", "reopen"})
+	if n <= 2 {
+		ops = append(ops, []string{"op", "recreate"})
+	}
 	return ops
 }
 
@@ -581,7 +730,14 @@ func c03Explore(tr *verifh.T, cfg []string, spawns [][]string, k int, limit int)
 		ops := append(append([][]string{}, spawns...), prefix...)
 		_, live := c03Exec(tr, verifh.Case{Cfg: cfg, Ops: ops}, true)
 		if len(live) == 0 {
-			full := append([][]string{{"op", "metainfo"}}, ops...)
+			// leaf: replay the interleaving with the observations after every step
+			full := append([][]string{{"op", "metainfo"}}, spawns...)
+			for j, o := range prefix {
+				full = append(full, o, []string{"op", "obs"})
+				if j%3 == 2 {
+					full = append(full, []string{"op", "read", "0"}, []string{"op", "read", "1"})
+				}
+			}
 			c03Exec(tr, verifh.Case{Cfg: cfg, Ops: full}, false)
 			leaves++
 			return
@@ -665,20 +821,31 @@ func TestVerif_C03(t *testing.T) {
 		n, pl int
 		ws    []wr
 		k     int
+		gates string
 	}
 	gcfgs := []gcfg{
-		{3, 2, []wr{{0, "correct"}, {0, "correct"}}, 1 << 20},
-		{3, 2, []wr{{0, "corrupt"}, {0, "correct"}}, 1 << 20},
-		{3, 2, []wr{{0, "correct"}, {1, "correct"}}, 1 << 20},
-		{2, 2, []wr{{0, "correct"}, {0, "correct"}}, 1},
-		{1, 1, []wr{{0, "corrupt"}, {0, "correct"}}, 1},
+		{3, 2, []wr{{0, "correct"}, {0, "correct"}}, 1 << 20, c03Coarse},
+		{3, 2, []wr{{0, "corrupt"}, {0, "correct"}}, 1 << 20, c03Coarse},
+		{3, 2, []wr{{0, "correct"}, {1, "correct"}}, 1 << 20, c03Coarse},
+		{2, 2, []wr{{0, "correct"}, {0, "correct"}}, 1, c03Coarse},
+		{1, 1, []wr{{0, "corrupt"}, {0, "correct"}}, 1, c03Coarse},
+		// the commit race: SetMetadataAt | markComplete | Inc | Load | move of the writers of the last two pieces
+		{3, 2, []wr{{0, "correct"}, {1, "correct"}}, 1 << 20, c03Commit},
+		// the fast path: dirty() | tryMarkDirty | open of two writers of one piece
+		{2, 2, []wr{{0, "correct"}, {0, "correct"}}, 1 << 20, c03Front},
+		// a failing writer releases the piece (markEmpty) around a second writer's fast path
+		{2, 2, []wr{{0, "corrupt"}, {0, "correct"}}, 1 << 20, "td,g1,me"},
 	}
 	if verifh.Thorough() {
 		gcfgs = append(gcfgs,
-			gcfg{4, 2, []wr{{0, "correct"}, {1, "correct"}}, 1},
-			gcfg{4, 2, []wr{{1, "corrupt"}, {1, "correct"}}, 1},
-			gcfg{3, 2, []wr{{0, "correct"}, {1, "correct"}, {1, "correct"}}, 1 << 20},
-			gcfg{3, 2, []wr{{0, "corrupt"}, {0, "correct"}, {1, "correct"}}, 1 << 20},
+			gcfg{4, 2, []wr{{0, "correct"}, {1, "correct"}}, 1, c03Coarse},
+			gcfg{4, 2, []wr{{1, "corrupt"}, {1, "correct"}}, 1, c03Coarse},
+			gcfg{3, 2, []wr{{0, "correct"}, {1, "correct"}, {1, "correct"}}, 1 << 20, c03Coarse},
+			gcfg{3, 2, []wr{{0, "corrupt"}, {0, "correct"}, {1, "correct"}}, 1 << 20, c03Coarse},
+			gcfg{3, 2, []wr{{0, "correct"}, {1, "correct"}}, 1 << 20, "g3,mc,in,ld,g4,sc"},
+			gcfg{2, 2, []wr{{0, "correct"}, {0, "correct"}}, 1 << 20, "fc,fd,td,g1,g3"},
+			gcfg{2, 2, []wr{{0, "corrupt"}, {0, "correct"}}, 1 << 20, "fc,fd,td,g1,g3,me"},
+			gcfg{5, 2, []wr{{0, "correct"}, {1, "correct"}, {2, "correct"}}, 1 << 20, "mc,ld"},
 		)
 	}
 	for _, g := range gcfgs {
@@ -688,13 +855,43 @@ func TestVerif_C03(t *testing.T) {
 			spawns = append(spawns, []string{"op", "spawn", fmt.Sprintf("w%d", i), strconv.Itoa(w.pi),
 				verifh.Hex(c03Payload(blob, g.pl, w.pi, w.kind, nil))})
 		}
-		n := c03Explore(tr, c03Cfg(blob, g.pl, true, 0), spawns, g.k, verifh.Scale(1500, 8000))
+		n := c03Explore(tr, c03CfgG(blob, g.pl, true, 0, g.gates), spawns, g.k, verifh.Scale(1500, 8000))
 		tr.Count("gated_exhaustive_interleavings", n)
+	}
+	// (b2) bursts: several writers of one piece are parked in front of tryMarkDirty and released at the
+	// same instant; exactly one may get the piece. Also with a second piece so that the commit follows.
+	rb := verifh.NewRand(verifh.Seed(), "c03burst")
+	for it := 0; it < verifh.Scale(80, 3000); it++ {
+		pl := 1 + rb.Intn(4)
+		np := 1 + rb.Intn(2)
+		blob := rb.Bytes(pl*(np-1) + 1 + rb.Intn(pl))
+		nw := 2 + rb.Intn(6)
+		ops := [][]string{{"op", "metainfo"}}
+		var names []string
+		for j := 0; j < nw; j++ {
+			kind := "correct"
+			if rb.Chance(1, 4) {
+				kind = "corrupt"
+			}
+			name := fmt.Sprintf("w%d", j)
+			names = append(names, name)
+			ops = append(ops, []string{"op", "spawn", name, "0", verifh.Hex(c03Payload(blob, pl, 0, kind, rb))})
+		}
+		if np == 2 && rb.Chance(1, 2) {
+			ops = append(ops, c03Write(1, c03Payload(blob, pl, 1, "correct", rb)))
+		}
+		for _, n := range names {
+			ops = append(ops, []string{"op", "run", n, "0"}) // to the td gate
+		}
+		ops = append(ops, []string{"op", "burst", verifh.List(names), "1048576"}, []string{"op", "obs"})
+		c03Exec(tr, verifh.Case{Cfg: c03CfgG(blob, pl, true, 0, "td,g1,g3"), Ops: ops}, false)
+		tr.Count("burst_cases", 1)
+		tr.Count("burst_writers", nw)
 	}
 	// (c) random histories: sequential and gated mixes, random blobs and piece lengths
 	r := verifh.NewRand(verifh.Seed(), "c03")
 	kinds := []string{"correct", "correct", "correct", "corrupt", "short", "long", "empty", "other", "random"}
-	for it := 0; it < verifh.Scale(400, 20000); it++ {
+	for it := 0; it < verifh.Scale(300, 20000); it++ {
 		pl := 1 + r.Intn(8)
 		blob := r.Bytes(r.Intn(5*pl + 1))
 		if r.Chance(1, 6) {
@@ -737,7 +934,11 @@ func TestVerif_C03(t *testing.T) {
 				ops = append(ops, []string{"op", "read", strconv.Itoa(idx())}, []string{"op", "has", strconv.Itoa(idx())},
 					[]string{"op", "plen", strconv.Itoa(idx())})
 			case x < 19:
-				ops = append(ops, []string{"op", "reopen"})
+				if r.Chance(1, 4) {
+					ops = append(ops, []string{"op", "recreate"})
+				} else {
+					ops = append(ops, []string{"op", "reopen"})
+				}
 			default:
 				// finish every piece in a random order
 				for _, i := range r.Perm(np) {
@@ -748,8 +949,12 @@ func TestVerif_C03(t *testing.T) {
 		if it < 2 {
 			tr.Sample(fmt.Sprint(c03Cfg(blob, pl, gated, 0), ops))
 		}
-		c03Exec(tr, verifh.Case{Cfg: c03Cfg(blob, pl, gated, r.Intn(4)), Ops: ops}, false)
+		gates := []string{c03Coarse, c03Coarse, c03Fine, c03Commit, c03Front, "td,g2,mc,me"}[r.Intn(6)]
+		c03Exec(tr, verifh.Case{Cfg: c03CfgG(blob, pl, gated, r.Intn(4), gates), Ops: ops}, false)
 		tr.Count("random_cases", 1)
+		if gated {
+			tr.Count("random_gated_gates_"+gates, 1)
+		}
 	}
 }
 
@@ -761,6 +966,7 @@ func c03ExecConc(tr *verifh.T, c verifh.Case) {
 		return
 	}
 	defer e.close()
+	c03Current = nil // free-running: no gate is active
 	type item struct {
 		id        string
 		pi        int
